@@ -36,12 +36,15 @@ def item_trees():
         gen = st.one_of(st.just(["none"]), st.just(["none"]),
                         st.tuples(st.sampled_from(["replace", "replace1", "insert", "insert"]),
                                   st.one_of(children, st.just("GEN"))).map(list))
-        elem = st.one_of(st.just("FRAME"), gen.map(lambda e: {"gen": e}), gen.map(lambda e: {"gen": e}), children, st.none())
+        hid = st.sampled_from([False, False, True])
+        elem = st.one_of(st.just("FRAME"), st.tuples(gen, hid).map(lambda p: {"gen": p[0], "hide": p[1]}),
+                         st.tuples(gen, hid).map(lambda p: {"gen": p[0], "hide": p[1]}), children, st.none())
         return st.fixed_dictionaries({"u": st.sampled_from(["tuple", "list", "iter", "one"]),
                                       "elems": st.lists(elem, min_size=0, max_size=3)})
     base = st.one_of(leaf_u.map(lambda u: {"u": u, "elems": []}),
                      st.lists(st.sampled_from(["FRAME", {"gen": ["none"]}, {"gen": ["replace1", "GEN"]},
-                                               {"gen": ["insert", "GEN"]}, None]), min_size=0, max_size=3).map(
+                                               {"gen": ["insert", "GEN"]}, {"gen": ["none"], "hide": True}, None,
+                                               {"u": "raise", "elems": []}]), min_size=0, max_size=3).map(
                          lambda xs: {"u": "tuple", "elems": xs}))
     # frameless trees in which several items fail to unwrap (extract records a group; extract_outermost re-raises it)
     fl_leaf = st.sampled_from(["raise", "raise", "none", "empty"]).map(lambda u: {"u": u, "elems": []})
@@ -49,14 +52,20 @@ def item_trees():
                                      "elems": st.lists(st.one_of(fl_leaf, st.none()), min_size=2, max_size=4)})
     fl_tree = st.fixed_dictionaries({"u": st.sampled_from(["tuple", "list", "iter"]),
                                      "elems": st.lists(st.one_of(fl_leaf, fl_node), min_size=1, max_size=3)})
-    return st.one_of(st.recursive(base, node, max_leaves=8), st.recursive(base, node, max_leaves=8), fl_node, fl_tree)
+    # one (possibly hidden) frame plus failing items around it: everything extract() may adjust on "the" frame of such a
+    # stack must be adjusted by extract_outermost() too
+    one = st.sampled_from([{"gen": ["none"], "hide": True}, {"gen": ["none"], "hide": False}, "FRAME"])
+    bad = st.sampled_from([{"u": "raise", "elems": []}, {"u": "none", "elems": []}, None])
+    single = st.tuples(st.lists(bad, max_size=2), one, st.lists(bad, max_size=2), st.sampled_from(["tuple", "list", "iter"])).map(
+        lambda p: {"u": p[3], "elems": p[0] + [p[1]] + p[2]})
+    return st.one_of(st.recursive(base, node, max_leaves=8), st.recursive(base, node, max_leaves=8), fl_node, fl_tree, single)
 
 
 def number_items(shape):
     ctr = {"f": 0, "i": 0, "g": 0}
     elab16 = {}
 
-    def gen(e):
+    def gen(e, hide=False):
         if ctr["g"] >= 24:
             return None
         idx = ctr["g"]
@@ -65,6 +74,8 @@ def number_items(shape):
             sub = gen(["none"]) if e[1] == "GEN" else walk(e[1])
             if sub is not None:
                 elab16[str(idx)] = [e[0], [sub]]
+        if hide:
+            elab16[str(idx)] = elab16.get(str(idx), ["none"]) + ["hidden"]
         return {"g": idx}
 
     def walk(s):
@@ -81,7 +92,7 @@ def number_items(shape):
                     ch.append({"f": ctr["f"]})
                     ctr["f"] += 1
             elif "gen" in e:
-                n = gen(e["gen"])
+                n = gen(e["gen"], e.get("hide", False))
                 if n is not None:
                     ch.append(n)
             else:
